@@ -293,6 +293,7 @@ def rule_r7(ctx):
     # does the rewriter turn super() into super(__class__, <first parameter>)?
     rewritten = False
     saw_test = False
+    verbatim_paths = []
     for pr in all_expr_paths(ctx).get("Call", []):
         tests = [k for k, v in pr.assign.items() if "'super'" in k and v is True]
         if not tests:
@@ -300,6 +301,10 @@ def rule_r7(ctx):
         saw_test = True
         if pr.outcome != "ok" or not any("zero_arg_super_used" in k and v is True for k, v in pr.assign.items()):
             continue
+        # the call has no arguments, the method uses zero-argument super and has a parameter: is the
+        # call rewritten on THIS path, whatever else the path assumes?
+        no_args = all(v is False for k, v in pr.assign.items() if re.search(r"(nonempty|truthy|cmp:len).*Call\.(args|keywords)", k)) and any(re.search(r"Call\.(args|keywords)", k) for k in pr.assign)
+        has_param = not any("get_parameters" in k and v is False for k, v in pr.assign.items())
         t = pr.result
         t = getattr(t, "inner", t)
         for c in iter_tnodes(t):
@@ -311,6 +316,21 @@ def rule_r7(ctx):
                     ids = [x.fields.get("id") for x in iter_tnodes(a0) if x.kind == "Name"] if isinstance(a0, TNode) else []
                     if any(isinstance(i, Cst) and i.value == "__class__" for i in ids) or "__class__" in str(getattr(a0, "desc", "")):
                         rewritten = True
+                        break
+        else:
+            if no_args and has_param:
+                verbatim_paths.append(pr)
+    if rewritten and verbatim_paths:
+        # rewritten on some paths only: the extra condition is state of the converter at the moment
+        # the expression happens to be rewritten (open loops, open comprehensions), not a property of
+        # the frame the call ends up in
+        extra = sorted({k.split("=")[0] for pr in verbatim_paths for k, v in pr.assign.items() if not re.search(r"super|zero_arg_super_used|get_parameters|Call\.(args|keywords|func)|ctx:nsp", k)})
+        rr.instances += 1
+        rr.fail(
+            "C12-R7|Call|super-rewrite-conditional",
+            f"ExpressionTransformer.get_pending: a zero-argument super() in a method is rewritten to super(__class__, <first parameter>) only on some paths; it stays verbatim when [{'; '.join(extra)[:160]}]. The test of a `while` is rewritten after the loop has been popped from the loop stack, the outermost iterable of a comprehension while the comprehension is already registered: `while super().more(): ...` / `[v for v in super().items()]` inside a loop keep the bare call in a foreign frame (TypeError)",
+            what="Call|super-rewrite|conditional",
+        )
     T = ctx.tmpl
     seen = set()
     for ci, kinds, entry in T.all_pending():
@@ -482,6 +502,24 @@ def rule_c06r6(ctx):
     return src
 
 
+def rule_c06r3(ctx):
+    """What a class-body name is read from decides the VALUES of the class attributes (shared rule
+    C06-R3, restricted to the class namespace)."""
+    from .c06 import rule_r3
+
+    src = rule_r3(ctx)
+    rr = RuleResult("C06-R3", "class bodies: get_assign and get_load_name denote the same storage (instance of C06-R3)")
+    rr.floor = 1
+    for f in src.findings:
+        if "|NamespaceClass|" in f.key:
+            rr.fail(f.key, f.msg, where=f.where)
+    rr.instances = max(1, sum(1 for w in map(str, src.nontrivial) if w.startswith("NamespaceClass")))
+    for w in sorted(map(str, src.nontrivial)):
+        if w.startswith("NamespaceClass"):
+            rr.ok(w)
+    return rr
+
+
 def rule_c06r4(ctx):
     """A class body reads the variables of enclosing functions through the owner recorded by
     NamespaceClass.__init__ (shared rule C06-R4, restricted to the class namespace)."""
@@ -519,4 +557,4 @@ def rule_c07r2(ctx):
     return rr
 
 
-RULES = [("C07-R2", rule_c07r2), ("C12-R1", rule_r1), ("C12-R2", rule_r23), ("C12-R4", rule_r4), ("C12-R5", rule_r5), ("C12-R7", rule_r7), ("C12-R8", rule_r8), ("C12-R9", rule_r9), ("C12-R6", rule_c06r6), ("C06-R4", rule_c06r4)]
+RULES = [("C07-R2", rule_c07r2), ("C12-R1", rule_r1), ("C12-R2", rule_r23), ("C12-R4", rule_r4), ("C12-R5", rule_r5), ("C12-R7", rule_r7), ("C12-R8", rule_r8), ("C12-R9", rule_r9), ("C12-R6", rule_c06r6), ("C06-R4", rule_c06r4), ("C06-R3", rule_c06r3)]
